@@ -112,7 +112,7 @@ func c16Options(c *c16Call) ([]schema.Option, error) {
 			o.Series = cbc.Code(*v.Series)
 		}
 		if v.IssueDate != nil {
-			d, err := parseDate(*v.IssueDate)
+			d, err := c16ParseDate(*v.IssueDate)
 			if err != nil {
 				return nil, err
 			}
@@ -155,7 +155,7 @@ func c16Options(c *c16Call) ([]schema.Option, error) {
 		opts = append(opts, bill.WithSeries(cbc.Code(*v.Series)))
 	}
 	if v.IssueDate != nil {
-		d, err := parseDate(*v.IssueDate)
+		d, err := c16ParseDate(*v.IssueDate)
 		if err != nil {
 			return nil, err
 		}
@@ -167,7 +167,7 @@ func c16Options(c *c16Call) ([]schema.Option, error) {
 	return opts, nil
 }
 
-func parseDate(s string) (cal.Date, error) {
+func c16ParseDate(s string) (cal.Date, error) {
 	var d cal.Date
 	err := json.Unmarshal([]byte(`"`+s+`"`), &d)
 	return d, err
@@ -193,7 +193,7 @@ func c16ErrKind(err error) string {
 	case strings.Contains(m, "missing corrective reason"):
 		return "missing-reason"
 	}
-	return "other:" + errKind(err)
+	return "other:" + c08ErrKind(err)
 }
 
 // ---- reflection: addresses reachable from a value, scribbling over every settable leaf ----
@@ -386,7 +386,7 @@ func c16Observe(src *gobl.Envelope, call func() (*gobl.Envelope, error)) []V {
 	b2 := b1
 	if err == nil && res != nil {
 		resJSON, _ = json.Marshal(res)
-		guard(&validates, func() { validates = errKind(res.Validate()) })
+		c08guard(&validates, func() { validates = c08ErrKind(res.Validate()) })
 		sa, ra := envAddrs(src), envAddrs(res)
 		for p, rp := range ra {
 			if sp, ok := sa[p]; ok {
